@@ -25,7 +25,7 @@ PRODUCERS = {   # name -> (pre statements, kind, expression)
     "bundle-each": ([("decl", "Bundle", "bb", BUN)], "Bundle", B("*", V("bb"), I(2))),
     "bundle-filter": ([("decl", "Bundle", "bb", BUN)], "Bundle", ("cond", B(">", V("bb"), I(1)), V("bb"))),
 }
-CONSUMPTION = ["unconsumed", "consumed-once", "alias-first-consumed", "alias-both-unconsumed", "consumed-in-func",
+CONSUMPTION = ["unconsumed", "repeated-anonymously", "consumed-once", "alias-first-consumed", "alias-both-unconsumed", "consumed-in-func",
                "consumed-in-loop", "twice-same-expr", "two-outputs"]
 VAL = {"a": 5, "c": 3, "x": 2, "y": 6}
 
@@ -37,6 +37,13 @@ def mk(pname, cons, optimize):
     scalar = kind == "Signal"
     if cons == "unconsumed":
         pass
+    elif cons == "repeated-anonymously":
+        # the same expression again, anonymously, inside a later statement: `r` itself is never referenced
+        if pname in ("typed-const", "untyped-const", "bundle-const", "mem-read", "latch-read", "func-return"):
+            return None
+        e2 = B("*", ("paren", expr), I(2))
+        body.append(("decl", kind, "q", e2))
+        outs = {"r": expr, "q": e2}
     elif cons == "consumed-once":
         e2 = B("+", V("r"), I(10)) if scalar else B("+", V("r"), I(10))
         body.append(("decl", kind, "q", e2))
